@@ -197,7 +197,11 @@ def finish(rep):
     for fid, (e, n) in sorted(known_hits.items()):
         lines.append(f"KNOWN-FINDING: property={rep.prop} {e['id']}: {e['what']} [{n} case(s) this run]")
     replay_paths = []
-    os.makedirs(os.path.join(VERIF, "replays", rep.prop), exist_ok=True)
+    rdir = os.path.join(VERIF, "replays", rep.prop)
+    os.makedirs(rdir, exist_ok=True)
+    for old in os.listdir(rdir):  # replay files always describe the current run only
+        if old.endswith(".json"):
+            os.remove(os.path.join(rdir, old))
     seen = set()
     for v in new_viol:
         blob = json.dumps(v["signature"], sort_keys=True, default=str)
